@@ -296,6 +296,26 @@ def gen_ops(rng, seeds):
     return ops
 
 
+DYADIC = [0.0, 0.25, 0.5, 0.75, 1.0, 0.125]
+
+
+def gen_forced_script(rng, cls):
+    """script whose generator results are dictated: boundary draws (0, maximum, exactly the probability parameter, exactly
+    0.5) mixed with random ones, fed to the implementation through a stub generator and to the model as data"""
+    c = gen_script(rng, cls)
+    a = c["spec"]["args"]
+    for k in ("p", "play", "p_on", "p_off"):
+        if k in a:
+            a[k] = float(rng.choice(DYADIC))
+    if cls == "PBrown" and type(a["step"]) is float:
+        a["step"] = float(rng.choice([0.5, 1.0, 0.25]))
+    marks = [0, -1, TWO53 // 2, TWO53 // 2 - 1] + [int(Fraction(a[k]) * TWO53) for k in ("p", "play", "p_on", "p_off") if k in a]
+    marks += [m - 1 for m in marks if m > 0]
+    c["forced"] = [rng.choice(marks) if rng.random() < 0.6 else rng.randrange(TWO53) for _ in range(48)]
+    c["gen"] = cls
+    return c
+
+
 def gen_script(rng, cls):
     seeds = [rng.randrange(2 ** 31) for _ in range(3)]
     spec = {"cls": real_cls(cls), "args": gen_spec(rng, cls)}
@@ -560,7 +580,7 @@ def judge_script(run, case, r):
     def report(kind, detail, extra=None):
         nonlocal hit
         hit = True
-        rep = {"case": {"class": spec["cls"], "args": spec["args"], "seed": case["seed"], "ops": case["ops"]},
+        rep = {"case": {"class": spec["cls"], "args": spec["args"], "seed": case["seed"], "ops": case["ops"], "forced": case.get("forced")},
                "observed": detail, "oracle": "independent Python oracle (property text)",
                "python": snippet(spec, case["seed"], case["ops"])}
         if extra:
@@ -694,7 +714,7 @@ def run_scripts(run, cases):
     for case, r in zip(cases, results):
         cls = case["gen"]
         run.count(len(case["ops"]))
-        run.dist("script." + cls)
+        run.dist(("forced." if "forced" in case else "script.") + cls)
         judged_bad = judge_script(run, case, r)
         if "driver_exception" in r:
             continue
@@ -736,7 +756,7 @@ def run_scripts(run, cases):
         found = minimise(run, case)
         run.violation({"kind": "correspondence", "site": case["spec"]["cls"]}, {
             "broken": "correspondence model/implementation on %s: the theorems of Props/C11.v no longer describe this code" % case["spec"]["cls"],
-            "case": {"class": case["spec"]["cls"], "args": case["spec"]["args"], "seed": case["seed"], "ops": case["ops"]},
+            "case": {"class": case["spec"]["cls"], "args": case["spec"]["args"], "seed": case["seed"], "ops": case["ops"], "forced": case.get("forced")},
             "observed": {"events": [e if e == "stop" or "x" in e else dec(e["v"]) for e in r["events"]][:40],
                          "draws": r["epochs"][:3]},
             "model": found, "python": snippet(case["spec"], case["seed"], case["ops"]),
@@ -985,6 +1005,8 @@ def check(run):
         cases += [gen_script(run.rng, cls) for _ in range(per_cls)]
     for cls in ORACLE_ONLY:
         cases += [gen_script(run.rng, cls) for _ in range(per_cls // 2)]
+    for cls in MODELLED:
+        cases += [gen_forced_script(run.rng, cls) for _ in range(per_cls // 3)]
     for i in range(0, len(cases), 2400):
         run_scripts(run, cases[i:i + 2400])
     run_worlds(run, 120 if quick else 1500)
@@ -1003,7 +1025,7 @@ def replay(run, doc):
     if "ops" in case and "class" in case:
         gen = case["class"]
         c = {"kind": "script", "gen": gen if gen in MODELLED else "oracle-only", "spec": {"cls": case["class"], "args": case["args"]},
-             "seed": case["seed"], "ops": case["ops"],
+             "seed": case["seed"], "ops": case["ops"], **({"forced": case["forced"]} if case.get("forced") else {}),
              "refs": {"seeds": sorted({case["seed"]} | {o[1] for o in case["ops"] if isinstance(o, list)}), "n": sum(1 for o in case["ops"] if o == "next")}}
         if not run.build():
             return run.finish()
